@@ -570,9 +570,17 @@ def r15_8(run):
             elif e.kind == "store" and len(e.index) == 1 and e.index[0][0] == "c" and isinstance(e.index[0][1], str) \
                     and e.index[0][1].startswith(".") and e.base[0] in ("call", "n") and e.base != ("n", "cls"):
                 sets_.append((e, e.base, e.index[0][1][1:], e.value))
+            elif e.kind == "store" and len(e.index) == 1 and e.index[0][0] == "c" and isinstance(e.index[0][1], str) \
+                    and e.base[0] == "attr" and e.base[2] == "__dict__" and e.base[1] != ("n", "cls"):
+                sets_.append((e, e.base[1], e.index[0][1], e.value))        # obj.__dict__["name"] = v  is  obj.name = v
         for e, obj, name, value in sets_:
             facts = _facts_of(e.cond, r) if e.cond else {}
-            absent = facts.get(tkey(("call", ("x", "builtins.hasattr"), (obj, ("c", name)), ()))) is False
+            dct = ("attr", obj, "__dict__")
+            absent = any(facts.get(tkey(a)) is False for a in (
+                ("call", ("x", "builtins.hasattr"), (obj, ("c", name)), ()),
+                ("cmp", "in", ("c", name), dct),
+                ("cmp", "in", ("c", name), ("call", ("attr", dct, "keys"), (), ())),
+                ("cmp", "in", ("c", name), ("call", ("x", "builtins.vars"), (obj,), ()))))
             # rebuilding an attribute from what was stored (the dictionary, other restored attributes) is restoring, not defaulting
             rebuilt = (dpar is not None and contains(value, dpar)) or contains(value, obj)
             run.ob("%s.from_dict|%s|restored-not-defaulted" % (f.cls.name, name), absent or rebuilt,
